@@ -66,7 +66,7 @@ func c10GenNode(t *rapid.T, depth int, budget *int) C10Node {
 	for i := 0; i < nk && *budget > 0; i++ {
 		n.Kids = append(n.Kids, c10GenNode(t, depth-1, budget))
 	}
-	n.H = c10Len(t, "h", []string{"", "", "", "", "", "0", "10px", "40px"})
+	n.H = c10Len(t, "h", []string{"", "", "", "", "", "0", "10px", "40px", "50%", "120%"})
 	if len(n.Kids) == 0 {
 		n.H = c10Len(t, "hleaf", []string{"", "0", "10px", "40px", "20px", "25px", "10px", "40px", "50%", "150%"})
 		n.MinH = c10Len(t, "minh", []string{"", "", "", "", "15px", "60px", "50%"})
